@@ -30,7 +30,7 @@ def scripts(rnd, ntables, types):
                 ops.append('bread %d %d' % (addr, n))
                 ops.append('foreach %d %d 0' % (addr, n))
                 for k in range(min(nregs, 4)):
-                    s = [0] * k + [rnd.choice([1, -1, 5, -3])]
+                    s = [0] * k + [rnd.choice([1, -1, 5, -3, 65536, 32768, 131072, -65536, 2147483647, -2147483648, 40000])]      # any non-zero int stops it, by its sign
                     if n > 0 and rnd.random() < 0.4:
                         ops.append('foreach %d %d %d %s' % (addr, n, len(s), ' '.join(map(str, s))))
         rnd.shuffle(ops)
